@@ -326,7 +326,7 @@ func applyFaults(img []byte, fs []StoreFault) ([]byte, []bool) {
 func c11Header(t *Tape) HdrSpec {
 	h := genHdr(t)
 	if len(h.Refs) == 0 {
-		h.Refs = []RefSpec{{"chr1", 100000}}
+		h.Refs = []RefSpec{{Name: "chr1", Len: 100000}}
 	}
 	return h
 }
@@ -981,7 +981,7 @@ func (c11) Exec(x *Exec, ci interface{}) *Verdict {
 		// B subtype, B count, first tag byte, terminator), exhaustive over a
 		// fixed record list
 		recs := c11AuxRecs()
-		h := HdrSpec{SO: "unsorted", Refs: []RefSpec{{"chr1", 1000}}}
+		h := HdrSpec{SO: "unsorted", Refs: []RefSpec{{Name: "chr1", Len: 1000}}}
 		build := func(edit *StoreFault) []byte {
 			stream := h.EncodeBAMHeader()
 			for i, r := range recs {
